@@ -64,7 +64,11 @@ def array_programs(seed, n, syms=gen.SYMS, tids=None):
         units = [k for k, ixd in enumerate(x["ix"]) if len(ixd["cm"]) == 1 and ixd["cm"][0]["d"] == 1]
         if unit0:
             three(steps, "squeeze", ["x"], {"axis": [rng.choice(unit0)]}, "sq")
-            steps.append({"op": "squeeze", "in": ["x"], "out": ["sqi"], "args": {"axis_int": unit0[0]}})
+            three(steps, "squeeze", ["x"], {"axis_int": unit0[0]}, "sqi")
+        # a unit axis in front, then only THAT axis squeezed (axis = 0) while other unit axes may remain
+        steps.append({"op": "expand_dims", "in": ["x"], "out": ["ex0"], "args": {"axis": 0}})
+        steps.append({"op": "expand_dims", "in": ["ex0"], "out": ["ex00"], "args": {"axis": rank + 1}})
+        three(steps, "squeeze", ["ex00"], {"axis_int": 0}, "sq0")
         if units == unit0:
             # (also when there is nothing to squeeze: the result is then the array itself)
             three(steps, "squeeze", ["x"], {"axis_none": True}, "sqa")
